@@ -36,6 +36,9 @@ def counted(coro, before, on_yield, on_throw=None):
     value = exc = None
     while True:
         before()
+        if on_throw is not None and exc is None and type(value).__name__ == "Error" and type(value).__module__.startswith("outcome"):
+            # trio never throws into a task: it SENDS an outcome.Error that the innermost trap function unwraps (and raises) itself
+            on_throw(value.error)
         try:
             msg = coro.throw(exc) if exc is not None else coro.send(value)
         except StopIteration as stop:
